@@ -162,9 +162,9 @@ def lean_pipeline(pid: str, thorough: bool = False) -> dict:
         if r.returncode != 0:
             res["failures"].append("axiom audit failed to elaborate: " + out[-300:].replace("\n", " | "))
         seen = {}
-        for m in re.finditer(r"'([^']+)' depends on axioms: \[([^\]]*)\]", out, re.S):
+        for m in re.finditer(r"^'([^\n]+)' depends on axioms: \[([^\]]*)\]", out, re.M):
             seen[m.group(1)] = {a.strip() for a in m.group(2).replace("\n", " ").split(",") if a.strip()}
-        for m in re.finditer(r"'([^']+)' does not depend on any axioms", out):
+        for m in re.finditer(r"^'([^\n]+)' does not depend on any axioms", out, re.M):
             seen[m.group(1)] = set()
         axioms_used: set[str] = set()
         for n in names:
